@@ -30,7 +30,9 @@ EXPLANATION = (
     ' '
     'R-C17.8 (= R-C07.9) no finally block is left through return/break/continue.'
     ' '
-    'R-C17.9 = R-C07.10; R-C17.10 evolver.project_sig is always the object the saved Version holds (or _save_project_sig stores it into the version).')
+    'R-C17.9 = R-C07.10; R-C17.10 evolver.project_sig is always the object the saved Version holds (or _save_project_sig stores it into the version).'
+    ' '
+    'R-C17.11 _save_project_sig saves the Version on every normal path.')
 NOT_DECIDED = (
     'That the payload (evolutions, migrations, model names) equals exactly '
     'what was executed between the paired signals for every run.')
@@ -741,7 +743,34 @@ def r10_saved_signature_is_the_evolved_one(ctx, rule_id='R-C17.10'):
                'object the saved Version holds')
 
 
+def r11_version_saved_on_every_path(ctx):
+    """`evolved` is sent after _save_project_sig() returned.  On every normal
+    path through it the Version object is saved - also when the evolver
+    already holds one (the baseline it installed itself): "after the first
+    time, the version already saved will simply be updated"."""
+    ctx.rule('R-C17.11')
+    p = ctx.program
+    f = p.func('evolve.evolver', 'Evolver._save_project_sig')
+    g = ctx.cfg(f)
+    saves = [n for n in g.nodes if any(
+        call_name(c) == 'save' and isinstance(c.func, ast.Attribute) and
+        'version' in unparse(c.func.value) for c in n.calls())]
+    ctx.floor('version.save() calls in _save_project_sig', len(saves), 1)
+    esc = g.path(g.entry, g.exit, avoid=saves, follow_exc=False)
+    if esc is None:
+        ctx.ok(f, 'the version is saved on every normal path')
+    else:
+        ctx.finding(f, None, '_save_project_sig can return without saving '
+                    'the Version (lines %s): when the evolver already holds '
+                    'one - the baseline it installed on an empty database - '
+                    'the evolved signature is never written, yet `evolved` '
+                    'is sent' % ' -> '.join(
+                        str(getattr(x.stmt, 'lineno', 0)) for x in esc
+                        if x.stmt is not None), key='version-not-saved')
+
+
 def run(ctx):
+    r11_version_saved_on_every_path(ctx)
     r10_saved_signature_is_the_evolved_one(ctx)
     r9_exit_never_suppresses(ctx)
     r8_finally_does_not_swallow(ctx)
